@@ -555,7 +555,7 @@ func NewControlBeheraPasswordPolicy(opt ...Option) (*ControlBeheraPasswordPolicy
 		return nil, fmt.Errorf("%s: behera policies cannot have both grace and error codes set: %w", op, ErrInvalidParameter)
 	case opts.withExpire != -1 && opts.withErrorCode != -1:
 		return nil, fmt.Errorf("%s: behera polices cannot have both expire and error codes set: %w", op, ErrInvalidParameter)
-	case opts.withErrorCode > 8:
+	case opts.withErrorCode > 8 || opts.withErrorCode < -1:
 		return nil, fmt.Errorf("%s: %d is not a valid behera policy error code (must be between 0-8: %w", op, opts.withErrorCode, ErrInvalidParameter)
 	}
 	c := &ControlBeheraPasswordPolicy{
